@@ -23,7 +23,7 @@ EXPLANATION = (
     "Indices, which is a Singleton; Singleton.__call__ is evaluated: one construction per class, the identical "
     "instance afterwards. R08d: bounded model check of the registry - Indices.__init__, get_indices, "
     "get_generic_indices, _gen_generic_idx, _new_symbol, is_cached_index, get_symbols and the Index properties are "
-    "evaluated by sa/symex on concrete request histories (all sequences of up to two requests from 13 request kinds, "
+    "evaluated by sa/symex on concrete request histories (all sequences of up to two requests from 15 request kinds, "
     "selected triples; thorough: all triples) against an independently written reference registry: identical record for "
     "a repeated (name, spin), also inside one request, distinct records otherwise, requested name/space/spin, generic "
     "names i3.. that were never handed out or requested before, result order, every returned record known to "
@@ -472,6 +472,7 @@ REQUESTS = [
     ("gen", {"occ": 2}, None), ("gen", {"occ": 1, "virt_a": 1}, None), ("gen", {"occ": 8}, None),
     ("gen", {"general_b": 1, "occ": 0}, None),
     ("sym", "ji", None), ("sym", "aia", "aba"),
+    ("get", "ij", "a"), ("gen", {"occ_a_b": 1}, None),
 ]
 TRIPLES = [(7, 4, 7), (2, 7, 7), (9, 4, 9), (7, 2, 9), (1, 11, 1), (8, 3, 8), (4, 9, 7), (6, 10, 6), (5, 0, 12), (12, 5, 3),
            (7, 7, 4), (2, 4, 9), (10, 6, 10), (11, 1, 0), (3, 12, 8)]
